@@ -1,5 +1,5 @@
 From Coq Require Import ExtrOcamlBasic NArith ZArith List.
 From LV Require Import lib.Conv lib.WordArith model.Pos model.PosRlp model.PosBig spec.PosSpec.
 Extraction "model.ml" conv_roots build zbig_build total_weight quorum sorted_ids sorted_weights
-  get_idx get_id get_weight_by_idx get exists_id c_indexes v_cache encode decode encode_rlp rlp_array decode_rlp
+  get_idx get_id get_weight_by_idx get exists_id c_indexes v_cache encode decode encode_rlp rlp_array decode_rlp decode_step empty_validators
   eff eff_pairs spec_total max_total spec_idx canon_ok sum_weights find_shift big_spec_pairs rank.
